@@ -31,7 +31,7 @@ VerdictT == D => X.outcome \in Allowed \cup {"panic", "wedge"}     \* (panic / w
 \* "exactly the message that the identified remote key authenticated": a datagram is attributed to K iff K signed exactly these bytes
 AttributionT == D /\ X.decoded => X.hashOK /\ (X.fromK <=> ByK)
 \* "... or makes it allocate beyond the protocol's size limits" (a datagram is at most 1280 bytes)
-AllocT == D => X.alloc <= 262144
+AllocT == D => X.alloc <= 4194304
 \* replies: a handled ping is answered by a pong echoing its hash; neighbors only go to bonded senders that asked
 ReplyT == D => /\ (X.outcome = "handled" /\ TypeName(X.netcompat, X.type) = "ping") => (("pong" \in SetOf(X.replies)) /\ X.echo)
                /\ ("neighbors" \in SetOf(X.replies)) => (ByK /\ X.bonded /\ TypeName(X.netcompat, X.type) = "findnode" /\ X.outcome = "handled")
